@@ -12,6 +12,7 @@ generated pair, not proved.
 import Pastel.RealInst
 import Pastel.Model.DeltaE
 import Pastel.Lemmas.SharmaEq
+import Pastel.Lemmas.HPrimeRange
 import Mathlib.Analysis.InnerProductSpace.PiL2
 
 namespace Pastel.C11
@@ -233,5 +234,10 @@ example : ¬ SharmaEq.WrapHigh ⟨50, 0, 0⟩ ⟨60, 0, 0⟩ := by
     rw [this]; norm_num [real_feq]
   simp only [SharmaEq.primedHues, e] at h1
   norm_num at h1
+
+/-- The primed hue angle `h'` lies in [0, 360) for every input (`atan2` ∈ (−π, π], negative angles
+are lifted by one turn) — so the case analyses above see every possible pair of angles. -/
+theorem hPrime_range (x y : ℝ) : 0 ≤ getHPrime x y ∧ getHPrime x y < 360 :=
+  HPrimeRange.getHPrime_range x y
 
 end Pastel.C11
